@@ -64,11 +64,33 @@ using Vec = amc::SmallVector<Elem, CFG_N, Alloc, CFG_ST>;
 #endif
 using Ref = std::vector<int>;
 
+// optional partner vector type for swap2 (same element type, any flavour / N / size_type / allocator)
+#ifdef CFG2_FL
+#if CFG2_ALLOC == 0
+using Alloc2 = amc::BasicAllocatorWrapper<Elem, InstrBasicAllocator>;
+#else
+using Alloc2 = LedgerAllocator<Elem>;
+#endif
+#if CFG2_FL == 0
+using Vec2 = amc::FixedCapacityVector<Elem, CFG2_N, amc::vec::ExceptionGrowingPolicy, CFG2_ST>;
+#elif CFG2_FL == 1
+using Vec2 = amc::vector<Elem, Alloc2, CFG2_ST>;
+#else
+using Vec2 = amc::SmallVector<Elem, CFG2_N, Alloc2, CFG2_ST>;
+#endif
+#else
+using Vec2 = Vec;
+#endif
+
 static const int kMaxPool = 6;
 static int gPool = 3;
 alignas(Vec) static unsigned char gStore[kMaxPool][sizeof(Vec)];
 static Vec *V(int c) { return reinterpret_cast<Vec *>(gStore[c]); }
 static Ref gRef[kMaxPool];
+static int gPool2 = 0;
+alignas(Vec2) static unsigned char gStore2[kMaxPool][sizeof(Vec2)];
+static Vec2 *W(int c) { return reinterpret_cast<Vec2 *>(gStore2[c]); }
+static Ref gRef2[kMaxPool];
 
 // single-pass input iterator over an array of elements
 struct InIt {
@@ -107,18 +129,34 @@ static std::vector<int> parseList(const std::string &t) {
   return r;
 }
 
-static std::string showCont(int c) {
-  Vec &v = *V(c);
+template <class VT>
+static std::string showContT(VT &v) {
   std::ostringstream os;
   const char *b = reinterpret_cast<const char *>(&v);
   const char *d = reinterpret_cast<const char *>(v.data());
-  bool inl = d >= b && d < b + sizeof(Vec);
+  bool inl = d >= b && d < b + sizeof(VT);
   os << (unsigned long long)v.size() << ":" << (unsigned long long)v.capacity() << ":" << (inl ? 1 : 0) << ":";
   for (size_t i = 0; i < (size_t)v.size(); ++i) {
     if (i) os << ",";
-    os << showVal(v[static_cast<typename Vec::size_type>(i)]);
+    os << showVal(v[static_cast<typename VT::size_type>(i)]);
   }
   return os.str();
+}
+static std::string showCont(int c) { return showContT(*V(c)); }
+
+template <class VT>
+static bool sameAsRefT(VT &v, const Ref &r) {
+  if ((size_t)v.size() != r.size()) return false;
+  if (v.empty() != r.empty()) return false;
+  for (size_t i = 0; i < r.size(); ++i) {
+    Elem &e = v[static_cast<typename VT::size_type>(i)];
+#if CFG_CAT == 0
+    if (e != r[i]) return false;
+#else
+    if (e.state() != 1 || e.val != r[i]) return false;
+#endif
+  }
+  return true;
 }
 
 static long liveCount() { return (long)G().live.size(); }
@@ -147,10 +185,12 @@ int main(int argc, char **argv) {
     std::string tok;
     while (ss >> tok) {
       if (tok.rfind("pool=", 0) == 0) gPool = std::atoi(tok.c_str() + 5);
+      if (tok.rfind("pool2=", 0) == 0) gPool2 = std::atoi(tok.c_str() + 6);
     }
-    if (gPool > kMaxPool) return 2;
+    if (gPool > kMaxPool || gPool2 > kMaxPool) return 2;
   }
   for (int c = 0; c < gPool; ++c) new (gStore[c]) Vec();
+  for (int c = 0; c < gPool2; ++c) new (gStore2[c]) Vec2();
   long n = 0;
   long armed = 0;
   while (std::getline(std::cin, line)) {
@@ -161,6 +201,7 @@ int main(int argc, char **argv) {
     if (t.empty()) continue;
     std::string res = "ok", ret = "-", oracle = "ok";
     auto N = [&](size_t i) -> long { return i < t.size() ? std::atol(t[i].c_str()) : 0; };
+    auto T = [&](size_t i) -> std::string { return i < t.size() ? t[i] : std::string("-"); };
     G().ev.reset();
     const std::string &op = t[0];
     bool skip = false;
@@ -168,6 +209,10 @@ int main(int argc, char **argv) {
       for (int c = 0; c < gPool; ++c) {
         V(c)->~Vec();
         gRef[c].clear();
+      }
+      for (int c = 0; c < gPool2; ++c) {
+        W(c)->~Vec2();
+        gRef2[c].clear();
       }
       std::ostringstream os;
       os << "blocks=" << G().blocks.size() << ",live=" << (CFG_CAT == 0 ? 0 : liveCount());
@@ -177,7 +222,66 @@ int main(int argc, char **argv) {
       G().blocks.clear();
       G().live.clear();
       for (int c = 0; c < gPool; ++c) new (gStore[c]) Vec();
+      for (int c = 0; c < gPool2; ++c) new (gStore2[c]) Vec2();
     } else if (op == "thr") {
+      armed = N(1);
+    } else if (op.size() > 1 && op.back() == '2' && op != "sw2") {
+      // operations on the partner pool (used to set up swap2 operands): push2 apr2 rsv2 shr2 clr2 pop2
+      int d = (int)N(1);
+      Vec2 &w = *W(d);
+      Ref &r2 = gRef2[d];
+      typedef typename Vec2::size_type ST2;
+      try {
+        if (op == "push2") {
+          Elem e((int)N(2));
+          w.push_back(e);
+          r2.push_back((int)N(2));
+        } else if (op == "apr2") {
+          std::vector<int> vals = parseList(T(2));
+          std::vector<Elem> src(vals.begin(), vals.end());
+          w.append(src.data(), src.data() + src.size());
+          r2.insert(r2.end(), vals.begin(), vals.end());
+        } else if (op == "rsv2") {
+          w.reserve((ST2)N(2));
+        } else if (op == "shr2") {
+          w.shrink_to_fit();
+        } else if (op == "clr2") {
+          w.clear();
+          r2.clear();
+        } else if (op == "pop2") {
+          if (w.empty()) skip = true;
+          else {
+            w.pop_back();
+            r2.pop_back();
+          }
+        } else {
+          res = "bad-op";
+        }
+      } catch (const std::overflow_error &) {
+        res = "exc:overflow";
+      } catch (const std::out_of_range &) {
+        res = "exc:range";
+      }
+      if (skip) res = "skip";
+    } else if (op == "sw2") {
+      // V(c).swap2(W(d)): both operands keep their contents when it throws
+      int c = (int)N(1), d = (int)N(2);
+      Ref a0 = gRef[c], b0 = gRef2[d];
+      G().fuel = armed;
+      try {
+        V(c)->swap2(*W(d));
+        gRef[c].swap(gRef2[d]);
+      } catch (const std::overflow_error &) {
+        res = "exc:overflow";
+      } catch (const std::out_of_range &) {
+        res = "exc:range";
+      } catch (const std::bad_alloc &) {
+        res = "exc:alloc";
+      }
+      G().fuel = 0;
+      armed = 0;
+      if (res != "ok") oracle = (sameAsRefT(*V(c), a0) && sameAsRefT(*W(d), b0)) ? "unchanged" : "changed";
+    } else if (op == "thr_unused") {
       armed = N(1);
     } else {
       int c = (int)N(1);
@@ -262,7 +366,7 @@ int main(int argc, char **argv) {
           }
         } else if (op == "insr" || op == "insri") {
           size_t p = N(2) % (sz + 1);
-          std::vector<int> vals = parseList(t[3]);
+          std::vector<int> vals = parseList(T(3));
           std::vector<Elem> src(vals.begin(), vals.end());
           G().fuel = armed;
           typename Vec::iterator it;
@@ -342,7 +446,7 @@ int main(int argc, char **argv) {
             r.assign((size_t)N(2), val);
           }
         } else if (op == "asr" || op == "asri") {
-          std::vector<int> vals = parseList(t[2]);
+          std::vector<int> vals = parseList(T(2));
           std::vector<Elem> src(vals.begin(), vals.end());
           G().fuel = armed;
           if (op == "asr") {
@@ -383,7 +487,7 @@ int main(int argc, char **argv) {
           v.shrink_to_fit();
           G().fuel = 0;
         } else if (op == "apr" || op == "apri") {
-          std::vector<int> vals = parseList(t[2]);
+          std::vector<int> vals = parseList(T(2));
           std::vector<Elem> src(vals.begin(), vals.end());
           G().fuel = armed;
           if (op == "apr") {
@@ -509,8 +613,12 @@ int main(int argc, char **argv) {
           if (!sameAsRef(k) && oracle == "ok") oracle = "MISMATCH-c" + std::to_string(k);
       }
     }
+    if (res == "ok" && oracle == "ok")
+      for (int k = 0; k < gPool2; ++k)
+        if (!sameAsRefT(*W(k), gRef2[k])) oracle = "MISMATCH-w" + std::to_string(k);
     std::cout << n << " " << res << " ret=" << ret;
     for (int c = 0; c < gPool; ++c) std::cout << " | " << showCont(c);
+    for (int c = 0; c < gPool2; ++c) std::cout << " | " << showContT(*W(c));
     std::cout << " | al=" << G().ev.al << "," << G().ev.de << "," << G().ev.re << " blocks=" << G().blocks.size()
               << " live=";
     if (CFG_CAT == 0) std::cout << "-";
@@ -521,5 +629,6 @@ int main(int argc, char **argv) {
     ++n;
   }
   for (int c = 0; c < gPool; ++c) V(c)->~Vec();
+  for (int c = 0; c < gPool2; ++c) W(c)->~Vec2();
   return 0;
 }
